@@ -19,7 +19,11 @@
  * Number of busy-loop attempts before waiting on futex for grace period
  * batching.
  */
+#if defined(URCU_VERIF) && defined(URCU_VERIF_URCU_WAIT_ATTEMPTS)
+# define URCU_WAIT_ATTEMPTS URCU_VERIF_URCU_WAIT_ATTEMPTS
+#else
 #define URCU_WAIT_ATTEMPTS 1000
+#endif
 
 enum urcu_wait_state {
 	/* URCU_WAIT_WAITING is compared directly (futex compares it). */
